@@ -8,6 +8,7 @@ relevant projections into small ndjson records, and TLC judges them with the TLA
 from __future__ import annotations
 
 import json
+import os
 import re
 import subprocess
 from pathlib import Path
@@ -275,3 +276,298 @@ def demo_project(name: str) -> tuple[dict, str]:
     opts = {k: v for k, v in (cfg.get("options") or {}).items() if k in ("on_invalid_id_type", "module", "include_file_extensions_in_import_statements", "no_babel_transform")}
     proj = {"id": f"demo:{name}", "schema": sdl, "extensions": exts, "files": files, "config": {"options": opts}}
     return proj, sdl + "\n" + "\n".join(exts)
+
+
+# ------------------------------------------------------------------------------------------------
+# judge returning several kinds of printed lines (BAD, DRIFT, ...)
+# ------------------------------------------------------------------------------------------------
+
+def judge_tags(chk, module, records, *, schema_file=SCHEMA1, tag="judge", chunk=250, tags=("BAD", "DRIFT"), timeout=900):
+    out = {t: [] for t in tags}
+    for n, part in enumerate(vlib.chunks(records, chunk)):
+        path = chk.work / f"{tag}-{n}.ndjson"
+        vlib.write_ndjson(path, part)
+        cfg = chk.work / f"{Path(module).stem}-{tag}.cfg"
+        cfg.write_text(projlib.cfg_from_consts({}, "POSTCONDITION AllConsumed\n"))
+        r = vlib.tlc(SP / module, cfg, workers=1, timeout=timeout, env={"TRACE": str(path), "SCHEMA": str(schema_file)}, dfs=True, heap="4g")
+        chk.add_tlc(f"{tag}-{n}", r, count_states=False)
+        if r.violated:
+            raise ToolError(f"{module} did not consume all records of {path}:\n{r.out[-2000:]}")
+        for t, v in r.printed:
+            if t in out:
+                out[t].append(v)
+        chk.cov["traces_validated_against_impl"] += len(part)
+    return out
+
+
+# ------------------------------------------------------------------------------------------------
+# tolerant reader of operation text (C12): the GraphQL executable grammar for ONE operation, except that the
+# alias position accepts any run of characters (so that an illegal response key can still be observed).
+# Output format = harness/h_compile/src/gql.rs.
+# ------------------------------------------------------------------------------------------------
+
+_PUNCT = set("{}():$@!=[]|")
+
+
+class _Unreadable(Exception):
+    pass
+
+
+def _lex_loose(text: str):
+    toks, i, n = [], 0, len(text)
+    while i < n:
+        c = text[i]
+        if c in " \t\n\r,﻿":
+            i += 1
+        elif c == "#":
+            while i < n and text[i] not in "\n\r":
+                i += 1
+        elif text.startswith("...", i):
+            toks.append(("p", "..."))
+            i += 3
+        elif c in _PUNCT:
+            toks.append(("p", c))
+            i += 1
+        elif c == '"':
+            if text.startswith('"""', i):
+                raise _Unreadable("block string")
+            i += 1
+            out = []
+            while True:
+                if i >= n:
+                    raise _Unreadable("unterminated string")      # (a line terminator inside a string is tolerated)
+                ch = text[i]
+                if ch == '"':
+                    i += 1
+                    break
+                if ch == "\\":
+                    if i + 1 >= n:
+                        raise _Unreadable("unterminated escape")
+                    e = text[i + 1]
+                    m = {'"': '"', "\\": "\\", "/": "/", "b": "\b", "f": "\f", "n": "\n", "r": "\r", "t": "\t"}
+                    if e in m:
+                        out.append(m[e])
+                        i += 2
+                    elif e == "u" and re.fullmatch(r"[0-9A-Fa-f]{4}", text[i + 2:i + 6] or ""):
+                        out.append(chr(int(text[i + 2:i + 6], 16)))
+                        i += 6
+                    else:
+                        raise _Unreadable("bad escape")
+                else:
+                    out.append(ch)
+                    i += 1
+            toks.append(("s", "".join(out)))
+        else:
+            j = i
+            while j < n and text[j] not in " \t\n\r,﻿" and text[j] not in _PUNCT and text[j] != '"' and not text.startswith("...", j):
+                j += 1
+            toks.append(("w", text[i:j]))
+            i = j
+    toks.append(("eof", ""))
+    return toks
+
+
+_NAME = re.compile(r"[_A-Za-z][_0-9A-Za-z]*\Z")
+_INT = re.compile(r"-?(0|[1-9][0-9]*)\Z")
+_FLOAT = re.compile(r"-?(0|[1-9][0-9]*)(\.[0-9]+([eE][+-]?[0-9]+)?|[eE][+-]?[0-9]+)\Z")
+
+
+def loose_operation(text: str) -> dict:
+    """-> {"readable": True, "kind", "name", "selections"} or {"readable": False, "error"}"""
+    try:
+        toks = _lex_loose(text)
+        pos = [0]
+
+        def tok():
+            return toks[pos[0]]
+
+        def bump():
+            pos[0] += 1
+
+        def expect(p):
+            if tok() != ("p", p):
+                raise _Unreadable(f"expected {p}, found {tok()}")
+            bump()
+
+        def name():
+            k, v = tok()
+            if k != "w" or not _NAME.match(v):
+                raise _Unreadable(f"expected name, found {tok()}")
+            bump()
+            return v
+
+        def type_ref():
+            if tok() == ("p", "["):
+                bump()
+                type_ref()
+                expect("]")
+            else:
+                name()
+            if tok() == ("p", "!"):
+                bump()
+
+        def value():
+            k, v = tok()
+            if k == "s":
+                bump()
+                return {"t": "str", "cps": cps(v)}
+            if tok() == ("p", "$"):
+                bump()
+                return {"t": "var", "n": name()}
+            if tok() == ("p", "["):
+                bump()
+                items = []
+                while tok() != ("p", "]"):
+                    items.append(value())
+                bump()
+                return {"t": "list", "items": items}
+            if tok() == ("p", "{"):
+                bump()
+                fs = []
+                while tok() != ("p", "}"):
+                    n_ = name()
+                    expect(":")
+                    fs.append([n_, value()])
+                bump()
+                return {"t": "obj", "fields": fs}
+            if k == "w":
+                bump()
+                if _INT.match(v):
+                    return {"t": "int", "v": v}
+                if _FLOAT.match(v):
+                    return {"t": "float", "v": v}
+                if v in ("true", "false"):
+                    return {"t": "bool", "v": v == "true"}
+                if v == "null":
+                    return {"t": "null"}
+                if _NAME.match(v):
+                    return {"t": "enum", "v": v}
+            raise _Unreadable(f"expected value, found {tok()}")
+
+        def arguments():
+            out = []
+            expect("(")
+            while tok() != ("p", ")"):
+                n_ = name()
+                expect(":")
+                out.append([n_, value()])
+            bump()
+            return out
+
+        def selection_set():
+            expect("{")
+            out = []
+            while tok() != ("p", "}"):
+                out.append(selection())
+            bump()
+            return out
+
+        def selection():
+            if tok() == ("p", "..."):
+                bump()
+                if tok() == ("w", "on"):
+                    bump()
+                    on = name()
+                    return {"t": "inline", "on": on, "directives": [], "selections": selection_set()}
+                raise _Unreadable("fragment spread")
+            k, first = tok()
+            if k != "w":
+                raise _Unreadable(f"expected selection, found {tok()}")
+            bump()
+            alias = ""
+            if tok() == ("p", ":"):
+                bump()
+                alias, nm = first, name()          # the alias may be ANY run of characters
+            else:
+                if not _NAME.match(first):
+                    raise _Unreadable(f"field name is not a name: {first!r}")
+                nm = first
+            args = arguments() if tok() == ("p", "(") else []
+            if tok() == ("p", "@"):
+                raise _Unreadable("directive")
+            sels = selection_set() if tok() == ("p", "{") else []
+            key = alias or nm
+            return {"t": "field", "alias": alias, "name": nm, "key": key.encode("ascii", "replace").decode(), "key_cps": cps(key),
+                    "args": args, "directives": [], "selections": sels}
+
+        kind = name()
+        if kind not in ("query", "mutation", "subscription"):
+            raise _Unreadable("not an operation")
+        opname = name() if tok()[0] == "w" else ""
+        if tok() == ("p", "("):
+            bump()
+            while tok() != ("p", ")"):
+                expect("$")
+                name()
+                expect(":")
+                type_ref()
+                if tok() == ("p", "="):
+                    bump()
+                    value()
+            bump()
+        sels = selection_set()
+        if tok()[0] != "eof":
+            raise _Unreadable("trailing text")
+        return {"readable": True, "kind": kind, "name": opname, "selections": sels}
+    except _Unreadable as e:
+        return {"readable": False, "error": str(e)}
+
+
+def strip_strict_tree(sels):
+    """Reduce a gql.rs selection list to the fields the loose reader produces (for the self-check)."""
+    out = []
+    for s in sels:
+        if s.get("t") == "field":
+            out.append({"t": "field", "alias": s["alias"], "name": s["name"], "key_cps": s["key_cps"], "args": s["args"],
+                        "selections": strip_strict_tree(s["selections"])})
+        elif s.get("t") == "inline":
+            out.append({"t": "inline", "on": s["on"], "selections": strip_strict_tree(s["selections"])})
+        else:
+            out.append({"t": s.get("t")})
+    return out
+
+
+def run_node_keys(chk, jobs: list[dict], timeout=600) -> dict:
+    """jobs: [{id, dir, pairs:[{qt, norm}]}] -> {id: results}"""
+    node = "/root/.nvm/versions/node/v22.22.2/bin/node"
+    script = Path(__file__).with_name("proj_pb_keys.mjs")
+    cache_ts = vlib.REPO / "libs/isograph-react/src/core/cache.ts"
+    inp = "\n".join(json.dumps(j) for j in jobs) + "\n"
+    try:
+        p = subprocess.run([node, "--experimental-strip-types", "--no-warnings", str(script), str(cache_ts)], input=inp,
+                           stdout=subprocess.PIPE, stderr=subprocess.PIPE, text=True, timeout=timeout)
+    except subprocess.TimeoutExpired:
+        raise ToolError("node key observer timed out")
+    if p.returncode != 0:
+        raise ToolError(f"node key observer failed rc={p.returncode}: {p.stderr[-2000:]}")
+    out = {}
+    for line in p.stdout.splitlines():
+        if line.strip():
+            o = json.loads(line)
+            out[json.dumps(o["id"])] = o["results"]
+    return out
+
+
+def compile_programs_and_demos(chk, programs, want, demos=None):
+    """Generated programs and the checked-in projects in ONE harness run (one cargo invocation: the shared
+    target directory lock is contended).  -> (observations of the programs, {demo: (observation, SDL text)})"""
+    names = list(DEMOS if demos is None else demos)
+    if os.environ.get("PB_SKIP_DEMOS"):        # development knob (binding demonstration runs); never set by the registered commands
+        names = []
+    projs = [project_of(p, i) for i, p in enumerate(programs)]
+    texts = {}
+    for n in names:
+        proj, text = demo_project(n)
+        projs.append(proj)
+        texts[n] = text
+    obs = projlib.compile_all(chk, projs, want=list(want))
+    out = {}
+    for n, o in zip(names, obs[len(programs):]):
+        if o["outcome"] != "ok":
+            raise ToolError(f"checked-in project {n} does not compile: {o.get('diagnostics') or o.get('panic_msg')}")
+        out[n] = (o, texts[n])
+    return obs[:len(programs)], out
+
+
+def compile_demos(chk, want, demos=None):
+    return compile_programs_and_demos(chk, [], want, demos)[1]
